@@ -88,7 +88,7 @@ func flip(b []byte, bit int) []byte {
 
 func TestC07(t *testing.T) {
 	r := ev.Start("C07", "exploration")
-	r.Rule("a corpus of genuine records (payload sizes 0/1/16/100, two partitions, two key generations) is mutated systematically: EVERY single-bit flip of Data and of the encrypted data key, every truncation and several extensions of both, every ordered pair of records exchanging Data / encrypted key / parent key meta / created stamps, parent meta pointing at every other existing key (other generation, other partition, the SK id) with Created in {0, +-1, min, max}, nil Key / ParentKeyMeta / EncryptedKey / Data, random JSON documents through json.Unmarshal; corrupted metastore rows (every bit flip of IK and SK ciphertext on a cold factory, nil or mispointing ParentKeyMeta, wrong Created, missing row, row of another id); Session.Load with loaders returning (nil,nil), (nil,err) and mutated records; storage-level corruption underneath the real plug-ins (DynamoDB items of the wrong shape/type behind both DynamoDB plug-ins, malformed key_record JSON behind the SQL plug-in) seen by cold cached/uncached factories; genuine and bit-flipped records presented to sessions closed once or twice and to sessions whose factory has been closed, for five cache configurations. Oracle: error, or exactly the payload originally encrypted under the record the Data came from; never a panic (recover() per case, process death = violation). Distinct+non-trivial: distinct mutants that reached the AEAD.")
+	r.Rule("a corpus of genuine records (payload sizes 0/1/16/100, two partitions, two key generations) is mutated systematically: EVERY single-bit flip of Data and of the encrypted data key, every truncation and several extensions of both, every ordered pair of records exchanging Data / encrypted key / parent key meta / created stamps, parent meta pointing at every other existing key (other generation, other partition, the SK id) with Created in {0, +-1, min, max}, nil Key / ParentKeyMeta / EncryptedKey / Data, random JSON documents through json.Unmarshal; corrupted metastore rows (every bit flip of IK and SK ciphertext on a cold factory, nil or mispointing ParentKeyMeta, wrong Created, missing row, row of another id); Session.Load with loaders returning (nil,nil), (nil,err) and mutated records; storage-level corruption underneath the real plug-ins (DynamoDB items of the wrong shape/type behind both DynamoDB plug-ins, malformed key_record JSON behind the SQL plug-in) seen by cold cached/uncached factories; genuine and bit-flipped records presented to sessions closed once or twice and to sessions whose factory has been closed, for five cache configurations; with the AWS KMS plug-ins as the KMS, every bit flip and structural damage of the multi-region JSON envelope in the system-key row. Oracle: error, or exactly the payload originally encrypted under the record the Data came from; never a panic (recover() per case, process death = violation). Distinct+non-trivial: distinct mutants that reached the AEAD.")
 	r.Assume("AES-GCM tag forgery probability 2^-128 per mutant is treated as impossible")
 	failed := false
 	defer func() {
@@ -294,6 +294,10 @@ func TestC07(t *testing.T) {
 
 		// 11. records presented to sessions and factories that have already been closed (once or twice)
 		c.closedPass()
+		synctest.Wait()
+
+		// 12. corrupted system-key envelopes of the AWS KMS plug-ins (multi-region JSON) seen by cold factories
+		awsKMSRows(r)
 		synctest.Wait()
 	})
 	r.Exhaustive(true)
